@@ -106,7 +106,19 @@ def build(case):
                             (repr(float(np.round(rng.uniform(0, 100), 3))) if rng.random() < 0.8 else ['0.0', '0'][int(rng.integers(0, 2))])
                         rows.append('%d\t%s' % (c, v))
                 s.tsv[t] = '\n'.join(rows) + '\n'
+                if rng.random() < 0.15:
+                    s.tsv[t] = s.tsv[t].replace('\t', ',')       # a comma-separated table under the .tsv name (the delimiter is sniffed)
         specs.append(s)
+    if k >= 2 and rng.random() < 0.12:
+        # recordings that follow each other in time (blocks that only touch: last sample of one = first of the next),
+        # listed in non-chronological order
+        order_t = rng.permutation(k)
+        start = 0
+        for p in order_t.tolist():
+            sm = specs[p].spike_samples.astype(np.int64)
+            sm = sm - sm[0] + start
+            start = int(sm[-1])
+            specs[p].spike_samples = sm.astype(specs[p].spike_samples.dtype)
     return specs, {'k': k, 'mat_mode': mat_mode, 'tsv_mode': tsv_mode, 'dt_ind': dt_ind}
 
 
@@ -133,6 +145,8 @@ def _run(case, ctx, d, which):
         s.write(sd)
         subdirs.append(sd)
     out = os.path.join(d, 'merged')
+    if case['seed'][-1] % 6 == 4:
+        out = d            # the probes live below the output directory (session/imec0, session/imec1 -> session)
     if case['seed'][-1] % 3 == 1:
         from pathlib import Path
         subdirs = [Path(x) for x in subdirs]      # str and Path forms are both documented
@@ -160,6 +174,13 @@ def _run(case, ctx, d, which):
     mon = monitors.CURRENT
     if mon.fs:
         mon.fs.watch(*subdirs_s)
+    if k >= 2 and case['seed'][-1] % 7 == 6:
+        # history: the output directory already holds a merge of the same probes in the opposite order (same total
+        # shapes, other block layout); the merge in the given order is the one judged
+        ctx.cell('output_dir_holds_reversed_merge')
+        r0 = call(lambda: Merger(subdirs[::-1], out).merge())
+        if r0.ok:
+            call(r0.value.close)
     merger = Merger(subdirs, out)
     if k >= 2 and case['seed'][-1] % 7 == 3:
         # history: a first merge() fails at a later probe (an input file is missing), the input is repaired and
@@ -287,7 +308,7 @@ def _oracle_c11(ctx, desc, f0, specs, out, m, order, probe_of, idx_in, before, a
             exp = {}
             for p, s in enumerate(specs):
                 if t in s.tsv:
-                    lines = [l.split('\t') for l in s.tsv[t].strip().split('\n')[1:]]
+                    lines = [l.split('\t' if '\t' in l else ',') for l in s.tsv[t].strip().split('\n')[1:]]
                     for cid, v in lines:
                         exp[int(cid) + offsets['clusters'][p]] = v
             path = os.path.join(out, t)
